@@ -97,6 +97,14 @@ func (r *resolver) module(y *Module) error {
 				if err != nil {
 					return fmt.Errorf("%s - %s", i.moduleName, err)
 				}
+				if i.module == nil {
+					return fmt.Errorf("%s - loader returned no module", i.moduleName)
+				}
+				if _, again := r.loadedModules[i.module.ident]; again {
+					// the source delivered a module that is already being resolved under
+					// another name (e.g. the importing module itself): would recurse forever
+					return fmt.Errorf("%s - import resolved to module %s which is already loaded", i.moduleName, i.module.ident)
+				}
 				// recurse
 				if err = r.module(i.module); err != nil {
 					return err
